@@ -50,6 +50,9 @@ func vC29_handleRemoteTell(_ *actorSystem, ctx context.Context, _ *PID, _ *PID, 
 	return nil
 }
 
+// the sender handle is irrelevant here (and parsing its address is C26's subject)
+func vC29_senderPID(_ *actorSystem, _ string) *PID { return nil }
+
 func vC29_system() *actorSystem {
 	x := &actorSystem{actors: newTree(), logger: log.DiscardLogger, name: "sys", remoting: vC29Remoting{},
 		remoteSenderAddresses: xsync.NewMap[string, *address.Address]()}
@@ -82,7 +85,7 @@ func vC29_batch() {
 	remoteclient.VC29_headers(p, 0, n0, true)
 	remoteclient.VC29_headers(p, 1, n1, true)
 	remoteclient.VC29_reset()
-	first := vChoose("firstCaller", 2) // either caller may get into the batch first
+	first := vCase("firstCaller") // either caller may get into the batch first
 	err0 := remoteclient.VC29_tell(p, first, true, 10+first)
 	err1 := remoteclient.VC29_tell(p, 1-first, true, 11-first)
 	vAssert(err0 == nil && err1 == nil, "both tells are accepted")
